@@ -320,6 +320,12 @@ def obligations(tier, seed):
         add("C10.likelihood.model[unrooted,weibull,batch=%s]" % (b,), "C01", "scn_model", a(b), a(()), "model_loglik_is_marginal", b)
         a2 = lambda bb: ("((A,B),C);", ["A", "B", "C"], ["AC", "CG", "GT"], [0.0, 1.0, 0.0], "time", "strict", "constant", 1, False, True, bb, "JC69")
         add("C10.likelihood.model[time,strict,batch=%s]" % (b,), "C01", "scn_model", a2(b), a2(()), "model_loglik_is_marginal", b)
+    # "some": only the clock rates are batched (node heights fixed), and only the heights are batched (clock fixed)
+    for ck in ("strict", "simple"):
+        base = ("((A,B),C);", ["A", "B", "C"], ["AC", "CG", "GT"], [0.0, 1.0, 0.0], "time", ck, "constant", 1, False, True)
+        for b in [(2,), (3,)]:
+            add("C10.likelihood.model[time,%s,clock batch=%s,heights fixed]" % (ck, b), "C01", "scn_model", base + ((), "JC69", False, b), base + ((), "JC69", False, ()), "model_loglik_is_marginal", b)
+            add("C10.likelihood.model[time,%s,heights batch=%s,clock fixed]" % (ck, b), "C01", "scn_model", base + (b, "JC69", False, ()), base + ((), "JC69", False, ()), "model_loglik_is_marginal", b)
     # joint distribution with abstract components
     comp_sets = [[()], [(), ()], [(1,)], [(), (1,)], [(2,)], [(), (3,)], [(2, 2)], [(), (1,), (3,)],
                  [(), ("u",)], [(), ("u", 1)], [(), ("u", 3)], [(1,), ("u", 2)], [(), ("u", 2, 2)], [(2,), ("u",), ("u", 4)]]
